@@ -300,6 +300,17 @@ def r_merge(repo, tier):
                     out.report(MAPPER, f.dqual, "merged value ignores %s's own value" % own, s.lineno, "the value stored for a location of %s does not depend on that map's value %s" % (own, ownval))
                 if not other_ok:
                     out.report(MAPPER, f.dqual, "merged value ignores the other map", s.lineno, "the value stored for a location of %s does not depend on the other map's value for it (%s[...]) nor on top" % (own, other))
+    # the other map is *read at a location* (m[loc]: locations are expressed in the input state), never *applied* to it
+    # (m(x) evaluates x -- including the address -- in m's post-state)
+    nreads = 0
+    for c in ast.walk(fn):
+        if isinstance(c, ast.Subscript) and isinstance(c.value, ast.Name) and c.value.id in maps and isinstance(c.ctx, ast.Load):
+            nreads += 1
+        if isinstance(c, ast.Call) and isinstance(c.func, ast.Name) and c.func.id in maps:
+            out.report(MAPPER, f.dqual, "applies %s" % norm(c)[:70], c.lineno, "merge fetches the other map's value with the call form `%s`: mapper.__call__ evaluates the location's address in that map's post-state, while map locations are expressed in the input state (the index form `%s[...]` used by the sibling fetches reads the location)" % (norm(c)[:70], c.func.id))
+    out.inst("%s::location-reads" % f.key, {"index_form_reads": nreads, "maps": maps})
+    if nreads < 4:
+        raise AnalysisError("R-XFER: merge() no longer reads the other map by location 4 times (%d)" % nreads)
     # pointer expansion: every mem(...) built from elements of <loc>.base.l uses <loc>.seg and <loc>.disp
     m = repo.mod(MAPPER)
     nexp = 0
@@ -361,4 +372,47 @@ def _deps(cfg, fn, node, expr, loop, depth):
             v = dn.ast.value if isinstance(dn.ast, (ast.Assign, ast.AugAssign)) else None
             if v is not None:
                 out |= _deps(cfg, fn, dn, v, loop, depth + 1)
+    return out
+
+
+# ======================================================================================= graph.add_vertex registers what it is given
+def r_addvertex(repo, tier):
+    out = RuleOut(
+        "R-ADDVERTEX",
+        "cfg.graph.add_vertex: every normal return is reached only through a call that registers the vertex in this graph "
+        "(the base class add_vertex, or the cutting helper __cut_add_vertex), and every return of a block vertex that is not the "
+        "double-overlay escape also passes the write into the address support (support.write): no shortcut returns a block that "
+        "this graph's support does not hold",
+    )
+    f = repo.func("amoco/cfg.py", "graph.add_vertex")
+    cfg = CFG(f.node, may_raise=lambda x: False)
+    reg, wr = set(), set()
+    for nd in cfg.nodes:
+        if nd.ast is None or nd.kind not in ("stmt", "return"):
+            continue
+        for c in ast.walk(nd.ast):
+            if isinstance(c, ast.Call) and isinstance(c.func, ast.Attribute):
+                if c.func.attr == "add_vertex" and norm(c.func.value).startswith("super("):
+                    reg.add(nd.id)
+                elif c.func.attr.endswith("__cut_add_vertex"):
+                    reg.add(nd.id)
+                    wr.add(nd.id)
+                elif c.func.attr == "write" and "support" in norm(c.func.value):
+                    wr.add(nd.id)
+    if not reg or not wr:
+        raise AnalysisError("R-ADDVERTEX: registration / support write calls not found in graph.add_vertex")
+    rets = [nd for nd in cfg.nodes if nd.kind == "return"] + [cfg.exit]
+    n = 0
+    for r in rets:
+        if r is cfg.exit:
+            continue
+        n += 1
+        own_reg = r.id in reg
+        skip_reg = (not own_reg) and r.id in cfg.reachable_from(cfg.entry, avoid=reg)
+        out.inst("%s::%s@%d" % (f.key, norm(r.ast), r.ast.lineno), {"return": norm(r.ast), "registered_on_all_paths": not skip_reg})
+        if skip_reg:
+            out.report(f.file, f.dqual, "%s without registration" % norm(r.ast), r.ast.lineno, "add_vertex can return by `%s` without having registered the vertex in this graph (no base-class add_vertex / __cut_add_vertex on the path): the block is neither a vertex nor in the support, so later blocks are not split against it and its instructions are missing from the partition" % norm(r.ast))
+    out.stats["returns"] = n
+    if n < 3:
+        raise AnalysisError("R-ADDVERTEX: only %d returns" % n)
     return out
